@@ -346,7 +346,12 @@ func c07ObservedSX(gs []c07Gate, d1, d2 []int, wfc, dbu, full bool, outs [][]*bi
 
 // c07Compile wires the destination vectors to outputs as ssa's Ret does and
 // compiles.  Panics are returned as errors.
-func c07Compile(bt *c07Built) (circ *circuit.Circuit, perr error) {
+func c07Compile(bt *c07Built) (circ *circuit.Circuit, perr error) { return c07CompilePasses(bt, 0) }
+
+// c07CompilePasses: passes = 0: Compile only (as circuits_test.go / mpa do);
+// 1: ConstPropagate, ShortCircuitXORZero, Compile; 2: additionally Prune — the
+// pipeline of ssa.Program.CompileCircuit (OptPruneGates off / on).
+func c07CompilePasses(bt *c07Built, passes int) (circ *circuit.Circuit, perr error) {
 	defer func() {
 		if r := recover(); r != nil {
 			perr = fmt.Errorf("panic: %v", r)
@@ -362,6 +367,13 @@ func c07Compile(bt *c07Built) (circ *circuit.Circuit, perr error) {
 	}
 	for _, o := range cc.OutputWires {
 		o.SetOutput(true)
+	}
+	if passes >= 1 {
+		cc.ConstPropagate()
+		cc.ShortCircuitXORZero()
+	}
+	if passes >= 2 {
+		cc.Prune()
 	}
 	return cc.Compile(), nil
 }
@@ -721,9 +733,12 @@ func c07Run(c *Ctx, r *RNG, k c07Case, exhaustiveBits, nrand int) {
 		c07Direct(c, r.Fork(), k)
 	}
 	if k.Tgt == 1 && (k.B == bUDiv || k.B == bIDiv) && len(k.Dsw) == 2 && k.Dsw[0] > 0 && k.Dsw[1] > 0 {
-		// the GMW divider is swept exhaustively up to 8x8 bits in every tier: the
-		// known finding lists the exact failing pairs of these widths
-		exhaustiveBits = 16
+		// the GMW divider is swept exhaustively in every tier (quick: up to 7x7 bits,
+		// thorough: 8x8): the known finding lists the exact failing pairs of these widths
+		exhaustiveBits = 14
+		if c.Thorough() {
+			exhaustiveBits = 16
+		}
 	}
 	circ, cerr := c07Compile(bt)
 	var operands [][]*big.Int
@@ -752,9 +767,19 @@ func c07Run(c *Ctx, r *RNG, k c07Case, exhaustiveBits, nrand int) {
 	}
 	failed := map[string]bool{}
 	first := true
+	pipeline := len(gs) <= c07PipelineGates && len(operands) <= c07PipelineOperands
+	var plain [][]*big.Int
+	defer func() {
+		if pipeline {
+			c07Pipeline(c, k, operands, plain)
+		}
+	}()
 	for _, vals := range operands {
 		want := c07Expected(k, vals)
 		got := c07Eval(circ, k.Opw, k.Dsw, vals, wires)
+		if pipeline {
+			plain = append(plain, got)
+		}
 		if first {
 			// cross-check the local evaluator against circuit.Circuit.Compute once per case
 			first = false
@@ -842,6 +867,69 @@ func c07Run(c *Ctx, r *RNG, k c07Case, exhaustiveBits, nrand int) {
 			sb.WriteString(v.Text(16))
 		}
 		c.Eval(sb.String(), nontriv)
+	}
+}
+
+// limits of the configurations that are also run through the compiler's real pass pipeline
+const c07PipelineGates = 4000
+const c07PipelineOperands = 1100
+
+// c07Pipeline runs the configuration through the pipeline ssa.Program.CompileCircuit
+// really uses — constants defined first (DefineConstants(ZeroWire, OneWire)), the
+// builder, outputs wired with cc.ID as Ret does, ConstPropagate,
+// ShortCircuitXORZero, Prune (off and on), Compile — and evaluates the resulting
+// circuit on the same operands against math/big and against the circuit
+// compiled without the passes.
+func c07Pipeline(c *Ctx, k c07Case, operands [][]*big.Int, plain [][]*big.Int) {
+	tgtName := []string{"Yao", "GMW"}[k.Tgt]
+	name := c07Names[k.B]
+	kp := k
+	kp.Pre = true
+	for passes := 1; passes <= 2; passes++ {
+		flavor := []string{"", "after-const-propagate", "after-const-propagate+prune"}[passes]
+		bt, err := c07Build(kp)
+		if err != nil || bt.err != nil {
+			continue // reported by the main run
+		}
+		circ, cerr := c07CompilePasses(bt, passes)
+		if cerr != nil {
+			c.Fail(fmt.Sprintf("c07:%s:%s:%s:compile-panic", name, tgtName, flavor),
+				fmt.Sprintf("%s (%s) widths %v -> %v: ConstPropagate/ShortCircuitXORZero/Prune/Compile panics: %v", name, tgtName, k.Opw, k.Dsw, cerr),
+				c07Replay{Case: kp, Note: flavor + ": " + cerr.Error()})
+			continue
+		}
+		wires := make([]byte, circ.NumWires)
+		reported := false
+		for oi, vals := range operands {
+			got := c07Eval(circ, k.Opw, k.Dsw, vals, wires)
+			want := c07Expected(k, vals)
+			for i := range k.Dsw {
+				if got[i].Cmp(plain[oi][i]) == 0 {
+					continue // same as without the passes (a wrong value there is reported by the main run)
+				}
+				cls := "differs-from-unoptimised"
+				ws := ""
+				if i < len(want) && want[i] != nil {
+					ws = want[i].String()
+					if want[i].Cmp(plain[oi][i]) == 0 {
+						cls = "wrong-value"
+					} else if want[i].Cmp(got[i]) == 0 {
+						continue // the passes repaired a known-wrong value: not a failure of the passes
+					}
+				}
+				if !reported {
+					reported = true
+					ops := make([]string, len(vals))
+					for j, v := range vals {
+						ops[j] = v.String()
+					}
+					c.Fail(fmt.Sprintf("c07:%s:%s:%s:%s", name, tgtName, flavor, cls),
+						fmt.Sprintf("%s (%s) widths %v -> %v operands %v: after the compiler's passes the circuit gives %s, without them %s, exact %s", name, tgtName, k.Opw, k.Dsw, ops, got[i], plain[oi][i], ws),
+						c07Replay{Case: kp, Dest: i, Operands: ops, Got: got[i].String(), Want: ws, Note: flavor + "; unoptimised circuit: " + plain[oi][i].String()})
+				}
+			}
+			c.Eval(fmt.Sprintf("%s|%s|%d", flavor, c07Key(k), oi), true)
+		}
 	}
 }
 
